@@ -76,6 +76,34 @@ func newSndwWorld() *sndwWorld {
 	return sw
 }
 
+// sndwPayloads are LEGAL cmd payloads in the JSON form the connection hands to the stack. They are written as
+// text because spine-go's own marshaller never produces some of them (an endTime without startTime is always
+// written as a duration, never as the absolute time the schema also allows). A response carrying any of them
+// references the request's counter just the same.
+var sndwPayloads = []string{
+	`{"loadControlLimitListData":{"loadControlLimitData":[{"limitId":1,"isLimitActive":true,"value":{"number":5,"scale":0}}]}}`,
+	`{"loadControlLimitListData":{"loadControlLimitData":[{"limitId":1,"timePeriod":{"endTime":"2035-01-01T00:00:00Z"},"value":{"number":5,"scale":0}}]}}`,
+	`{"loadControlLimitListData":{"loadControlLimitData":[{"limitId":1,"timePeriod":{"endTime":"PT2H"},"value":{"number":5,"scale":0}}]}}`,
+	`{"loadControlLimitListData":{"loadControlLimitData":[{"limitId":2,"timePeriod":{"startTime":"2030-01-01T00:00:00Z","endTime":"2035-01-01T00:00:00Z"}}]}}`,
+	`{"loadControlLimitListData":{"loadControlLimitData":[{"limitId":2,"timePeriod":{"startTime":"PT0S","endTime":"P1D"}},{"limitId":3,"timePeriod":{"endTime":"2035-06-01T12:00:00.5+02:00"}}]}}`,
+	`{"function":"loadControlLimitListData","filter":[{"cmdControl":{"partial":{}}}],"loadControlLimitListData":{"loadControlLimitData":[{"limitId":1,"isLimitActive":false}]}}`,
+	`{"function":"loadControlLimitListData","filter":[{"cmdControl":{"delete":{}},"loadControlLimitListDataSelectors":{"limitId":1}},{"cmdControl":{"partial":{}}}],"loadControlLimitListData":{"loadControlLimitData":[{"limitId":2,"timePeriod":{"endTime":"2036-01-01T00:00:00Z"}}]}}`,
+	`{"measurementListData":{"measurementData":[{"measurementId":1,"evaluationPeriod":{"endTime":"2035-01-01T00:00:00Z"},"value":{"number":-12345,"scale":-3}}]}}`,
+	`{"loadControlLimitListData":{"loadControlLimitData":[{"limitId":1,"futureElement":{"x":[1,2]},"value":{"number":9223372036854775807,"scale":-128}}]},"futureCmdElement":true}`,
+	`{"loadControlLimitListData":{"loadControlLimitData":[]}}`,
+	`{"resultData":{"errorNumber":7,"description":"not now"}}`,
+	`{"loadControlLimitDescriptionListData":{"loadControlLimitDescriptionData":[{"limitId":1,"limitType":"maxValueLimit","limitCategory":"obligation","unit":"W","scopeType":"activePowerLimit","label":"l","description":"d"}]}}`,
+	`{"timeSeriesListData":{"timeSeriesData":[{"timeSeriesId":1,"timePeriod":{"endTime":"2035-01-01T00:00:00Z"},"timeSeriesSlot":[{"timeSeriesSlotId":1,"timePeriod":{"startTime":"PT0S","endTime":"PT15M"},"duration":"PT15M","value":{"number":1,"scale":0}}]}]}}`,
+}
+
+// injectRaw hands the stack a datagram with the given header and a cmd written as JSON text.
+func (sw *sndwWorld) injectRaw(hd model.HeaderType, cmd string) any {
+	return h.Recover(func() {
+		hb, _ := json.Marshal(hd)
+		sw.rd.HandleSpineMesssage([]byte(fmt.Sprintf(`{"datagram":{"header":%s,"payload":{"cmd":[%s]}}}`, hb, cmd)))
+	})
+}
+
 func (sw *sndwWorld) inject(d model.DatagramType) any {
 	return h.Recover(func() {
 		b, _ := json.Marshal(model.Datagram{Datagram: d})
@@ -210,7 +238,13 @@ func runSenderWorld(r *h.Report, d *h.Driver, ops []string, base int) {
 					cmds = []model.CmdType{}
 				}
 			}
-			pan := sw.inject(model.DatagramType{Header: hd, Payload: model.PayloadType{Cmd: cmds}})
+			var pan any
+			if len(f) > 3 && strings.HasPrefix(f[3], "pv") {
+				k, _ := strconv.Atoi(f[3][2:])
+				pan = sw.injectRaw(hd, sndwPayloads[k%len(sndwPayloads)])
+			} else {
+				pan = sw.inject(model.DatagramType{Header: hd, Payload: model.PayloadType{Cmd: cmds}})
+			}
 			done = append(done, op)
 			h.Settle(base)
 			if pan != nil {
@@ -233,7 +267,9 @@ func runSenderWorld(r *h.Report, d *h.Driver, ops []string, base int) {
 				} else {
 					kind = "in:" + f[1] + ":miss"
 				}
-				if len(f) > 3 {
+				if len(f) > 3 && strings.HasPrefix(f[3], "pv") {
+					kind += ":payload"
+				} else if len(f) > 3 {
 					kind += ":fault"
 				}
 			}
@@ -288,6 +324,8 @@ func genSenderWorld(rng interface{ Intn(int) int }, n int) []string {
 			op := fmt.Sprintf("in %s %s", cls, ref)
 			if ref != "-" && rng.Intn(4) == 0 {
 				op += " " + []string{"nosrc", "noent", "nodst", "nofn", "nocmd"}[rng.Intn(5)]
+			} else if rng.Intn(2) == 0 {
+				op += fmt.Sprintf(" pv%d", rng.Intn(len(sndwPayloads)))
 			}
 			ops = append(ops, op)
 		default:
@@ -313,6 +351,12 @@ func TestSenderWorld(t *testing.T) {
 		// a response whose processing fails still answers the request: the next identical request is sent
 		runSenderWorld(r, d, []string{"rrd 0 0 0", "rrd 0 0 0", "in reply 4 " + fault, "rrd 0 0 0", "in result 5 " + fault, "rrd 0 0 0"}, base)
 	}
+	for k := range sndwPayloads {
+		// ... and so does a response with any legal payload, whatever the stack makes of the payload itself
+		for _, cls := range []string{"reply", "result", "notify"} {
+			runSenderWorld(r, d, []string{"rrd 0 0 0", "rrd 0 0 0", fmt.Sprintf("in %s 4 pv%d", cls, k), "rrd 0 0 0", "rrd 0 1 1", fmt.Sprintf("in %s 6 pv%d", cls, k), "rrd 0 1 1", "rrd 0 0 0"}, base)
+		}
+	}
 	rng := h.Rng(1313)
 	for i := 0; i < h.Scale(120, 1200); i++ {
 		runSenderWorld(r, d, genSenderWorld(rng, 20+rng.Intn(60)), base)
@@ -331,5 +375,15 @@ func TestSenderWorld(t *testing.T) {
 		}
 	}
 	r.Floor("withheld requests", r.Dist["rrd:withheld"], r.Dist["rrd:withheld"]+r.Dist["rrd:sent"], 0.05)
-	r.Floor("responses that hit", r.Dist["in:reply:hit"]+r.Dist["in:result:hit"], r.Dist["in:reply:hit"]+r.Dist["in:result:hit"]+r.Dist["in:reply:miss"]+r.Dist["in:result:miss"], 0.05)
+	cnt := func(sub string) int {
+		n := 0
+		for k, v := range r.Dist {
+			if strings.HasPrefix(k, "in:") && strings.Contains(k, sub) {
+				n += v
+			}
+		}
+		return n
+	}
+	r.Floor("responses that hit", cnt(":hit"), cnt(":hit")+cnt(":miss"), 0.05)
+	r.Floor("responses with a textual payload variant that hit an open request", cnt(":hit:payload"), cnt(":hit")+cnt(":miss"), 0.03)
 }
